@@ -563,6 +563,12 @@ func genPipe(rt *rapid.T, tier string, op pipeGenOpts) *PipeCase {
 	if op.rootedRef && rapid.IntRange(0, 2).Draw(rt, "rootref") == 0 {
 		all := refm.all()
 		refm = rootAtRandom(refm, all, r)
+		if a, b := refm.Children[0], refm.Children[1]; len(refm.Children) == 2 && a.HasLen && b.HasLen && rapid.Bool().Draw(rt, "unevenroot") {
+			// the root is not in the middle of its branch: the two root branches carry the same split with different lengths
+			total := a.Len + b.Len
+			a.Len = total / 4
+			b.Len = total - a.Len
+		}
 	}
 	if rapid.IntRange(0, 3).Draw(rt, "refsupports") == 0 {
 		// a reference that already carries supports (a previous run, aLRT values): percentages or fractions
